@@ -69,8 +69,8 @@ def main():
     res = {}
     for k in threads:
         numba.set_num_threads(k)
-        dev = zoo.device("G2" if config == "hole_terminals" else "G1", memo=False, lam=(0.8 if config == "screening" else 2.0),
-                         terminals=(config in ("hole_terminals", "callable_currents")))
+        dev = zoo.device({"hole_terminals": "G2", "four_terminals": "G4"}.get(config, "G1"), memo=False, lam=(0.8 if config == "screening" else 2.0),
+                         terminals=(config in ("hole_terminals", "callable_currents", "four_terminals")))
         dt = 2.0**-5
         o = dict(solve_time=6 * dt, dt_init=dt, dt_max=dt, adaptive=False, save_every=2, progress_interval=10**9)
         kw = dict(applied_vector_potential=0.5)
@@ -83,6 +83,15 @@ def main():
             kw = dict(applied_vector_potential=tdgl.Parameter(tramp, time_dependent=True))
         elif config == "callable_currents":
             kw["terminal_currents"] = cur
+        elif config == "four_terminals":
+            # non-representable decimals on four terminals: any order dependence of a sum shows in the last bit
+            dt = 2.0**-7
+            o.update(solve_time=6 * dt, dt_init=dt, dt_max=dt)
+            import numpy as np
+
+            # numpy scalars (as produced by any current sweep): builtin sum() is only compensated for exact Python floats
+            vals = np.array([0.26, 0.58, -0.10, -0.74])
+            kw["terminal_currents"] = dict(zip(("w", "e", "n", "s"), vals))
         elif config == "hole_terminals":
             dt = 2.0**-7
             o.update(solve_time=6 * dt, dt_init=dt, dt_max=dt)
